@@ -56,9 +56,10 @@ func (x *run) checkC01(obs []seen) *Failure {
 	// "having it injected into any other service yields that one instance": whoever declares a
 	// dependency on a registered singleton receives it - also through an optional field, and
 	// whatever the order of the registration calls was
+	vis := x.visibleInvs()
 	for _, inv := range x.W.AllInvs() {
-		if inv.Outcome != 1 {
-			continue
+		if inv.Outcome != 1 || !vis[inv] {
+			continue // (what an operation that overlapped a Close built and discarded is not anybody's instance)
 		}
 		for ai, a := range inv.Args {
 			if a.Dep.Builtin != 0 || a.Dep.Ignored || a.Dep.Group != "" {
@@ -218,6 +219,24 @@ func seqOrConc(a, b *kit.Inv) string {
 }
 
 // ---------- C03 ----------
+
+// checkC03Fresh: no transient instance is observed at two places (the half of C03 that
+// holds whether or not every call succeeded).
+func (x *run) checkC03Fresh(obs []seen) *Failure {
+	vis := x.visibleInvs()
+	seenOnce := map[*kit.Entry]string{}
+	for _, s := range obs {
+		reg := x.M.Regs[s.Owner.Reg]
+		if reg.Life != kit.Transient || reg.Form == kit.FormInstance || s.E == nil || (s.ByInv != nil && !vis[s.ByInv]) {
+			continue
+		}
+		if prev, dup := seenOnce[s.E]; dup {
+			return fail("C03", "fresh", s.ViaKind+"/"+formFeature(reg)+"/after-fault", "transient instance %v handed out twice: at %s and at %s", s.E, prev, s.Where)
+		}
+		seenOnce[s.E] = s.Where
+	}
+	return nil
+}
 
 func (x *run) checkC03(obs []seen) *Failure {
 	sites := map[int]int{}
@@ -434,6 +453,12 @@ type coreCheck struct {
 	hist   histOpts
 	oracle func(x *run, obs []seen, problems []*Failure) *Failure
 	nt     func(x *run, obs []seen) bool
+	// faulty: in a third of the cases one later constructor invocation of a non-singleton
+	// registration fails (error, panic or nil). What is constructed afterwards is judged by
+	// faultOracle - the part of the property that does not depend on every call succeeding.
+	faulty      bool
+	faultOracle func(x *run, obs []seen) *Failure
+	mutate      func(rt *rapid.T, cfg *kit.Config) // optional: additions to the generated configuration
 }
 
 func runCore(t *testing.T, c coreCheck, part string) {
@@ -441,6 +466,9 @@ func runCore(t *testing.T, c coreCheck, part string) {
 	defer col.Flush()
 	rapid.Check(t, func(rt *rapid.T) {
 		cfg := kit.GenConfig(rt, c.gen())
+		if c.mutate != nil {
+			c.mutate(rt, cfg)
+		}
 		x, err := startRun(cfg, nil)
 		if err != nil {
 			rt.Fatalf("generator produced an invalid configuration: %v", err)
@@ -451,15 +479,55 @@ func runCore(t *testing.T, c coreCheck, part string) {
 			col.Case(false, cfg.String(), nil, append(labels, "build-failed(not judged here)")...)
 			return
 		}
+		faultPlan := ""
+		if c.faulty && rapid.IntRange(0, 1).Draw(rt, "withFault") == 0 {
+			var cands []*kit.Reg
+			for _, id := range x.M.Order {
+				if r := x.M.Regs[id]; r.Life != kit.Singleton && r.Form != kit.FormInstance {
+					cands = append(cands, r)
+				}
+			}
+			if len(cands) > 0 {
+				r := rapid.SampledFrom(cands).Draw(rt, "faultReg")
+				k := x.W.Count[r.ID] + rapid.IntRange(1, 3).Draw(rt, "faultNth")
+				flt := faultFor(r, rapid.IntRange(0, 2).Draw(rt, "faultVariant"))
+				x.W.Faults[[2]int{r.ID, k}] = flt
+				faultPlan = fmt.Sprintf("\nfault: invocation #%d of r%d, kind %d", k, r.ID, flt.Kind)
+			}
+		}
 		x.genHistory(rt, c.hist)
 		obs, problems := x.observations()
-		canon := x.describe()
-		f := x.unexpectedErrors(c.prop)
-		if f != nil && f.Prop != c.prop {
-			f = nil // another property's business
+		canon := x.describe() + faultPlan
+		fired := false
+		for _, inv := range x.W.AllInvs() {
+			if inv.Outcome > 1 {
+				fired = true
+			}
 		}
-		if f == nil {
-			f = c.oracle(x, obs, problems)
+		var f *Failure
+		if fired {
+			labels = append(labels, "constructor-fault-fired")
+			for _, o := range x.R.Obs {
+				if o.Panic != nil {
+					f = fail(c.prop, "no-panic", o.Kind, "%s on s%d panicked: %v", o.Kind, o.Scope, o.Panic)
+				}
+			}
+			// only the operation during which the constructor failed may fail: everything
+			// else resolves as if nothing had happened
+			if f == nil {
+				f = x.unexpectedErrorsExceptFaulted(c.prop)
+			}
+			if f == nil {
+				f = c.faultOracle(x, obs)
+			}
+		} else {
+			f = x.unexpectedErrors(c.prop)
+			if f != nil && f.Prop != c.prop {
+				f = nil // another property's business
+			}
+			if f == nil {
+				f = c.oracle(x, obs, problems)
+			}
 		}
 		if x.Stats.Batches > 0 {
 			labels = append(labels, "concurrent-batch")
@@ -499,6 +567,10 @@ func TestC02Scoped(t *testing.T) {
 		gen:  kit.FullOpts, hist: concHist,
 		oracle: func(x *run, obs []seen, _ []*Failure) *Failure { return x.checkC02(obs) },
 		nt:     nontrivialC02,
+		// "a failed construction yields no instance and may be retried": with one failing
+		// constructor somewhere the per-scope rule holds all the same
+		faulty:      true,
+		faultOracle: func(x *run, obs []seen) *Failure { return x.checkC02(obs) },
 	}, "histories")
 }
 
@@ -514,6 +586,9 @@ func TestC03Transient(t *testing.T) {
 		hist:   seqHist,
 		oracle: func(x *run, obs []seen, _ []*Failure) *Failure { return x.checkC03(obs) },
 		nt:     nontrivialC03,
+		// after a failed construction: still no transient instance at two places
+		faulty:      true,
+		faultOracle: func(x *run, obs []seen) *Failure { return x.checkC03Fresh(obs) },
 	}, "histories")
 }
 
@@ -526,6 +601,12 @@ func TestC04Wiring(t *testing.T) {
 		gen:  kit.FullOpts, hist: h,
 		oracle: func(x *run, obs []seen, problems []*Failure) *Failure { return x.checkC04(obs, problems) },
 		nt:     func(x *run, _ []seen) bool { return nontrivialC04(x) },
+		// now and then two constructors whose parameter-object types are different types with one printed name
+		mutate: func(rt *rapid.T, cfg *kit.Config) {
+			if rapid.IntRange(0, 7).Draw(rt, "twins") == 0 {
+				kit.PlantTwins(rt, cfg)
+			}
+		},
 	}, "histories")
 }
 
